@@ -367,12 +367,24 @@ static void witnessSparseCount(Rng & rng, const std::string & tier) {
     runObject("sexp", rng, sh, x, d0, tier);
 }
 
-static const int kWitnesses = 2;
+static void witnessCopiedPolicy() {
+    // the destination is a copy-constructed MDP::Policy: the load succeeds, what do its queries answer afterwards?
+    AI::Matrix2D m1(2, 2), m2(2, 2); m1 << 0.25, 0.75, 0.5, 0.5; m2 << 1.0, 0.0, 0.0, 1.0;
+    M::Policy a(m1), x(m2);
+    M::Policy b(a);
+    std::ostringstream os; os << x;
+    int sig = loadInto(b, os.str());
+    Line l; l << "C17" << "rtcopy" << (size_t)2 << (size_t)2 << "|" << (size_t)sig << exactOf(x) << "|" << exactOf(b);
+    l.emit();
+}
+
+static const int kWitnesses = 3;
 long verif::verif_ncases(const std::string & tier) { return kWitnesses + (tier == "thorough" ? 1000 : 60); }
 
 void verif::verif_case(Rng & rng, long idx, const std::string & tier) {
     if (idx == 0) { witnessPolicyPrecision(rng, tier); return; }
     if (idx == 1) { witnessSparseCount(rng, tier); return; }
+    if (idx == 2) { witnessCopiedPolicy(); return; }
     long k = (idx - kWitnesses) % 10;
     int style = (int)(((idx - kWitnesses) / 10) % 2);       // alternate dyadic / ugly
     Shape sh{(size_t)rng.range(1, 4), (size_t)rng.range(1, 3), (size_t)rng.range(1, 3)};
